@@ -411,6 +411,19 @@ theorem C02_x64_frameless_body_exact (S : Nat) (saved : List (Option CuiReg)) (f
       simp only [hloc, hb]
       exact finishX64_ok (by omega) hra hra0 (by intro ⟨e, _⟩; omega)
 
+/-- The opcode lists the saved registers last-pushed first (LLVM reverses the push order before
+encoding; libunwind reads it back the same way). If the prologue pushes `pushes` in this order,
+the position used above is the index of `rbp` in push order: the `j`-th pushed register
+(counting from 0) is found `16 + 8·j` bytes below the CFA. -/
+theorem C02_x64_rbp_position_is_push_index (pushes : List CuiReg) :
+    bpPosFromOutside ((pushes.reverse).map some) = pushes.findIdx? (· == .rbp) := by
+  unfold bpPosFromOutside
+  congr 1
+  rw [← List.map_reverse, List.reverse_reverse]
+  induction pushes with
+  | nil => rfl
+  | cons a rest ih => simp [List.filterMap_cons, ih]
+
 /-- Frame-based entries use the frame pointer rule in caller frames and in first-frame bodies
 (when instruction analysis does not recognise a prologue or epilogue at pc). -/
 theorem C02_x64_frame_based_is_fp_rule (offsetInFn : Nat) (fnBytes : Option (List Nat)) :
